@@ -10,14 +10,16 @@ type SecurityRequirements []SecurityRequirement
 
 func NewSecurityRequirements(s openapi3.SecurityRequirements, schemes SecuritySchemes) ([]SecurityRequirement, error) {
 	out := make([]SecurityRequirement, 0, len(s))
-	for _, sr := range s {
+	for i, sr := range s {
+		if len(sr) != 1 {
+			return nil, fmt.Errorf("security requirement #%d names %d schemes: exactly one scheme per requirement is supported", i, len(sr))
+		}
 		for k, v := range sr {
 			ss, err := NewSecurityRequirement(k, v, schemes)
 			if err != nil {
 				return nil, fmt.Errorf("new security requirements %q: %w", k, err)
 			}
 			out = append(out, ss)
-			break
 		}
 	}
 	return out, nil
